@@ -26,7 +26,8 @@ struct Blob {
     return *this;
   }
   Blob<N>& operator=(const Slice<const uint8_t> s) { assign(s); return *this; }
-  static size_t size() { return N; }
+  Blob<N>& operator=(const std::vector<uint8_t>& vec) { *this = Blob<N>(vec); return *this; }
+  size_t size() const { return N; }  // (static in the real header; static members of class templates are not instantiated by the front end)
   uint8_t* data() { return data_; }
   const uint8_t* data() const { return data_; }
   uint8_t* begin() { return data_; }
